@@ -62,7 +62,7 @@ def read_poscar(filename):
         # Following lines contain atom positions
         for i, line in enumerate(lines[8 + skip : 8 + skip + np.sum(Natom)]):
             if mode == "direct":
-                pos[i] = np.sum(a * np.asarray(line.strip().split()[:3], dtype=float), axis=0)
+                pos[i] = np.asarray(line.strip().split()[:3], dtype=float) @ a
             if mode == "cartesian":
                 pos[i] = scaling * np.asarray(line.strip().split()[:3], dtype=float)
         # Skip all the properties afterwards
@@ -123,7 +123,7 @@ def write_poscar(obj, filename, fods=None, elec_symbols=("X", "He")):
         pos = pos[sort]
 
         # Write the sorted species
-        fp.write(f"{' '.join(set(atom))}")
+        fp.write(f"{' '.join(np.unique(atom))}")
         if fods is not None:
             for s in range(len(fods)):
                 if len(fods[s]) > 0:
